@@ -10,6 +10,7 @@ package main
 //                 and vs the property itself.
 
 import (
+	"compress/flate"
 	"archive/zip"
 	"bytes"
 	"context"
@@ -640,6 +641,59 @@ func zipLimitsMain(args []string) {
 				fs = strings.Join(files, ",")
 			}
 			want = append(want, "ok "+fs)
+		}
+	}
+	// ---- headers declaring 2^63 bytes or more (zip64): the declared size does not fit the signed size the code works with ----
+	for i, method := range []uint16{zip.Store, zip.Deflate} {
+		for _, extra := range []uint64{0, 1, 1 << 62} {
+			payload := bytes.Repeat([]byte{byte('a' + i)}, 300000)
+			var zb bytes.Buffer
+			zw := zip.NewWriter(&zb)
+			fh := &zip.FileHeader{Name: "bomb.bin", Method: method}
+			fh.CRC32 = crc32.ChecksumIEEE(payload)
+			fh.UncompressedSize64 = (1 << 63) + extra
+			var comp bytes.Buffer
+			if method == zip.Deflate {
+				fw, _ := flate.NewWriter(&comp, flate.BestSpeed)
+				_, _ = fw.Write(payload)
+				_ = fw.Close()
+			} else {
+				comp.Write(payload)
+			}
+			fh.CompressedSize64 = uint64(comp.Len())
+			if ww, err := zw.CreateRaw(fh); err == nil {
+				_, _ = ww.Write(comp.Bytes())
+			}
+			_ = zw.Close()
+			base := afero.NewMemMapFs()
+			rec := newRecFs(base)
+			vfs := filesystem.NewVirtualFileSystem(rec, filesystem.InMemoryFS, filesystem.IdentityPathConverterFunc)
+			_ = afero.WriteFile(base, "/a.zip", zb.Bytes(), 0o644)
+			rec.reset()
+			lim := filesystem.NewLimits(1000, 5000, 10, 5, true)
+			_, uerr := vfs.UnzipWithContextAndLimits(context.Background(), "/a.zip", "/out", lim)
+			onDisk := int64(0)
+			_ = afero.Walk(base, "/out", func(p string, info os.FileInfo, err error) error {
+				if err == nil && !info.IsDir() {
+					onDisk += info.Size()
+				}
+				return nil
+			})
+			hw := int64(0)
+			rec.mu.Lock()
+			for p, m := range rec.maxSize {
+				if p != "/a.zip" && m > hw {
+					hw = m
+				}
+			}
+			rec.mu.Unlock()
+			caseTxt := fmt.Sprintf("unzip of an entry declaring 2^63+%d bytes (method %d, 300000 real bytes), limits file=1000 total=5000", extra, method)
+			rep.Eval(caseTxt, true)
+			rep.Hist("declared-size-at-or-above-2^63")
+			if hw > 1000 || onDisk > 5000 {
+				rep.Fail(hx.Failure{Kind: "impl-violates-property", Key: "write-above-file-limit", Case: caseTxt, Expected: "no file above 1000 bytes at any time, at most 5000 bytes in all",
+					Observed: fmt.Sprintf("largest file %d bytes, %d bytes on disk at the end (result: %v)", hw, onDisk, uerr)})
+			}
 		}
 	}
 	if drv != nil {
